@@ -22,7 +22,6 @@ from __future__ import annotations
 
 import copy
 import fractions
-import json
 import multiprocessing
 import os
 import random
@@ -692,8 +691,6 @@ def _shrink_candidates(case: dict) -> List[dict]:
         c['spec'] = s
         out.append(c)
     # drop single constraints
-    for path_node in list(ptgen.spec_nodes(case['spec'])):
-        pass
     nodes = []
     _walk(case['spec'], (), [], [], nodes)
     for path, node, _n, _m in nodes:
